@@ -254,3 +254,160 @@ pub fn c33_min_cex() {
     assert!(a.0 == 0, "C33.everything_unlocked_after_schedule");
   }
 }
+
+// ------------------------------------------------------------------------------------------ C32
+
+/// commitment == little-endian bytes without trailing zero bytes
+//# props: C32, C11
+//# kind: complete (every u128; loop bounded by the 16 bytes of the operand, unwinding assertion)
+//# fns: Rune::commitment
+#[cfg_attr(kani, kani::proof)]
+#[cfg_attr(kani, kani::unwind(18))]
+pub fn c32_commitment() {
+  let n: u128 = kani::any();
+  let c = Rune(n).commitment();
+  let le = n.to_le_bytes();
+  let len = c.len();
+  assert!(len <= 16, "C32.commitment.at_most_16_bytes");
+  let mut i = 0;
+  while i < 16 {
+    if i < len {
+      assert!(c[i] == le[i], "C32.commitment.is_little_endian_prefix");
+    } else {
+      assert!(le[i] == 0, "C32.commitment.only_zero_bytes_dropped");
+    }
+    i += 1;
+  }
+  assert!(len == 0 || c[len - 1] != 0, "C32.commitment.no_trailing_zero_byte");
+  kani::cover!(len == 16, "16-byte commitment");
+  kani::cover!(len == 0, "empty commitment (rune 0)");
+}
+
+/// reserved(block, tx) never panics, lands in the reserved range and is injective
+//# props: C32, C11
+//# kind: complete (every pair of (u64 block, u32 tx))
+//# fns: Rune::reserved, Rune::is_reserved
+#[cfg_attr(kani, kani::proof)]
+pub fn c32_reserved_injective() {
+  let (b1, t1): (u64, u32) = (kani::any(), kani::any());
+  let (b2, t2): (u64, u32) = (kani::any(), kani::any());
+  let r1 = Rune::reserved(b1, t1);
+  let r2 = Rune::reserved(b2, t2);
+  assert!(r1.is_reserved() && r2.is_reserved(), "C32.reserved.in_reserved_range");
+  assert!((r1 == r2) == (b1 == b2 && t1 == t2), "C32.reserved.injective");
+  assert!(r1.0 - Rune::RESERVED == ((b1 as u128) << 32 | t1 as u128), "C32.reserved.encodes_block_and_tx");
+}
+
+/// modified base-26 value of a letter string: "A"=0 .. "Z"=25, "AA"=26 ...
+fn b26_value(letters: &[u8]) -> Option<u128> {
+  let mut x: u128 = 0;
+  let mut i = 0;
+  while i < letters.len() {
+    if i > 0 {
+      x = x.checked_add(1)?;
+    }
+    x = x.checked_mul(26)?;
+    x = x.checked_add((letters[i] - b'A') as u128)?;
+    i += 1;
+  }
+  Some(x)
+}
+
+fn from_str_len(len: usize) {
+  let raw: [u8; 4] = kani::any();
+  let mut buf = [b'A'; 4];
+  let mut i = 0;
+  while i < len {
+    kani::assume(raw[i] >= b'A' && raw[i] <= b'Z');
+    buf[i] = raw[i];
+    i += 1;
+  }
+  let s = core::str::from_utf8(&buf[..len]).unwrap();
+  let got = Rune::from_str(s);
+  assert!(got == Ok(Rune(b26_value(&buf[..len]).unwrap())), "C32.from_str.value_is_modified_base26");
+}
+
+//# props: C32, C31
+//# kind: bounded(names of 1..=3 letters, every letter symbolic)
+//# fns: Rune::from_str
+#[cfg_attr(kani, kani::proof)]
+#[cfg_attr(kani, kani::unwind(6))]
+pub fn c32_from_str_short_names() {
+  let len: usize = kani::any();
+  kani::assume(len >= 1 && len <= 3);
+  from_str_len(len);
+}
+
+//# props: C32, C31
+//# kind: bounded(names of exactly 6 letters, every letter symbolic)
+//# fns: Rune::from_str
+#[cfg_attr(kani, kani::proof)]
+#[cfg_attr(kani, kani::unwind(9))]
+pub fn c32_from_str_six_letters() {
+  let raw: [u8; 6] = kani::any();
+  let mut i = 0;
+  while i < 6 {
+    kani::assume(raw[i] >= b'A' && raw[i] <= b'Z');
+    i += 1;
+  }
+  let s = core::str::from_utf8(&raw).unwrap();
+  let got = Rune::from_str(s);
+  assert!(got == Ok(Rune(b26_value(&raw).unwrap())), "C32.from_str.value_is_modified_base26");
+}
+
+/// the range boundary: 28-letter names around u128::MAX's name, last two letters symbolic.
+/// "BCGDENLQRQWDSLRUGSNLBTMFIJAV" is u128::MAX; anything above is Error::Range, never a wrapped value.
+//# props: C32, C31
+//# kind: bounded(28-letter names sharing the first 26 letters of u128::MAX's name, last two letters symbolic)
+//# fns: Rune::from_str
+//# tier: thorough
+//# timeout: 900
+#[cfg_attr(kani, kani::proof)]
+#[cfg_attr(kani, kani::unwind(31))]
+pub fn c32_from_str_range_boundary() {
+  let mut buf = *b"BCGDENLQRQWDSLRUGSNLBTMFIJAV";
+  let a: u8 = kani::any();
+  let b: u8 = kani::any();
+  kani::assume(a >= b'A' && a <= b'Z' && b >= b'A' && b <= b'Z');
+  buf[26] = a;
+  buf[27] = b;
+  let s = core::str::from_utf8(&buf).unwrap();
+  let got = Rune::from_str(s);
+  match b26_value(&buf) {
+    Some(v) => assert!(got == Ok(Rune(v)), "C32.from_str.value_is_modified_base26"),
+    None => assert!(got == Err(Error::Range), "C32.from_str.out_of_range_is_error_not_wrapped"),
+  }
+  kani::cover!(got == Ok(Rune(u128::MAX)), "u128::MAX parses");
+  kani::cover!(got == Err(Error::Range), "range error reachable");
+}
+
+/// Display is the inverse: printing then parsing returns the same rune; digits are modified base-26
+//# props: C32
+//# kind: bounded(runes below 26: one-letter names; the Display path through String/chars().nth() exhausts memory beyond that)
+//# fns: Rune::fmt (Display), Rune::from_str
+//# tier: thorough
+//# timeout: 900
+#[cfg_attr(kani, kani::proof)]
+#[cfg_attr(kani, kani::unwind(28))]
+pub fn c32_display_round_trip_short() {
+  let n: u128 = kani::any();
+  kani::assume(n < 26);
+  let s = Rune(n).to_string();
+  let bytes = s.as_bytes();
+  assert!(bytes.len() >= 1 && bytes.len() <= 3, "C32.display.length");
+  assert!(b26_value(bytes) == Some(n), "C32.display.is_modified_base26");
+  assert!(Rune::from_str(&s) == Ok(Rune(n)), "C32.display_then_parse_is_identity");
+}
+
+//# props: C32
+//# kind: complete (the single special-cased value)
+//# fns: Rune::fmt (Display), Rune::from_str
+//# tier: thorough
+//# timeout: 600
+#[cfg_attr(kani, kani::proof)]
+#[cfg_attr(kani, kani::unwind(31))]
+pub fn c32_display_u128_max() {
+  let s = Rune(u128::MAX).to_string();
+  assert!(s.as_bytes() == b"BCGDENLQRQWDSLRUGSNLBTMFIJAV", "C32.display.u128_max_name");
+  assert!(Rune::from_str(&s) == Ok(Rune(u128::MAX)), "C32.display_then_parse_is_identity");
+}
